@@ -195,6 +195,27 @@ CHECKS = {
 
 NOT_YET = {}
 
+# configuration axes added after the seeded-change campaign (DESIGN.md 8.2 / 8.5)
+ADDED = {
+    "C01": " Also layer.finalize_constraints() in the default strict mode and in the non-strict mode on assigned kernels; zero-valued bounds.",
+    "C02": " Also inputs more than one full cell outside the range, and the same call traced in graph mode with an unknown batch size.",
+    "C03": " 22 quick models incl. 4-bucket diamond category orders, one-sided / zero-excluding bounds, lattices without any shape constraint (all-vertices and Kronecker-factored).",
+    "C04": " Also clamps on non-monotonic calibrators (must be refused or honoured).",
+    "C05": " Also a sentinel together with an is_missing tensor, keypoint vectors at scales 1e-7 and 1e6, logits of +-70, frozen layers re-assigned between calls, the list/tensor output form of split_outputs and graph-mode twins.",
+    "C06": " Also 4-input configurations carrying both dominance kinds.",
+    "C07": " Also list-form inputs and bounds on the same side of zero.",
+    "C10": " Also rank 8/9 lattices and the default None spelling of unset constraints.",
+    "C11": " Also models rebuilt from a trained model's config (equal config, equal regularization losses), per-feature + model-level regularizers, several RTL regularizers through JSON, random ensembles re-materialised from their config under a different global NumPy state.",
+    "C12": " Also PWL layers whose call() differs from the keypoint outputs (sentinel on a keypoint, tensor-only missing values, split outputs).",
+    "C13": " Also every zero/non-zero pattern of per-dimension amounts and the layers' kernel_regularizer tuple spelling read back through layer.losses.",
+    "C15": " Also a second keypoint range with input_min > 0 and the CDF layer's shared (batch, 1) input form.",
+    "C16": " Also even and larger sizes, multi-unit layers with tuple/list lattice_sizes for every constraint family and regularizer, simplex and clip_inputs=False twins, graph-mode calls with unknown batch size, multi-unit learned-keypoint PWL.",
+    "C17": " Also full RTL builds with Kronecker-factored sub-lattices and the same structures built in processes with different PYTHONHASHSEED.",
+    "C18": " Also the same data held in an integer array.",
+    "C19": " Also factors of magnitude 3e-7 / 1e-12 / 1e3 next to exact zeros, keypoints not starting at 0 and learned keypoints.",
+    "C20": " Also inputs up to +-1e6 on every side.",
+}
+
 
 def main():
   props = [json.loads(l) for l in open(os.path.join(HERE, "properties.jsonl"))]
@@ -203,6 +224,7 @@ def main():
     pid = p["id"]
     if pid in CHECKS:
       cat, tech, text, note, ref = CHECKS[pid]
+      text = text + ADDED.get(pid, "")
       checks.append(dict(
           property_id=pid,
           quick_cmd="./check %s --tier quick" % pid,
